@@ -57,6 +57,20 @@ def run(ctx):
             compare(ctx, qs[i:i + 3000], stats, "random-depth%d" % depth)
         for k, v in g.stats.items():
             gstats[k] = gstats.get(k, 0) + v
+    # wide constructs: ALT / OR lists, sequence literals, splices and statement lists around the sizes at which a
+    # mask, a small table or a counter would run out (31 .. 34, 63 .. 66, 129, 257), fed several stacks
+    wides = []
+    for n in (31, 32, 33, 34, 63, 64, 65, 66, 129, 257):
+        nums = ", ".join(str(i) for i in range(n))
+        wides += ["(%s)" % nums, "(100, 200, 300) (%s) add" % nums, "[%s] length" % nums, "(7, 8) [%s] elem ?(pos == %d)" % (nums, n - 1),
+                  "(1, 2) (|A| (%s) A add) ?(%d ?gt)" % (nums, n - 1), "(%s) ?(%d ?eq)" % (nums, n - 1),
+                  "(1, 2) (%s)" % " || ".join("?(%d ?eq) %d" % (n + 5, i) for i in range(n - 1)) + " || 99",
+                  "(1, %d) (%s)" % (n - 1, " || ".join("?(%d ?eq) \"b%d\"" % (i, i) for i in range(n))),
+                  "(5, 6) " + " ".join("1 add" for _ in range(n)), "(5, 6) \"%s\"" % "".join("%%( %d %%)" % (i % 10) for i in range(min(n, 66))),
+                  "(1, 2) (%s)" % ", ".join("(%d, %d)" % (i, i + 1000) for i in range(n)),
+                  "[(1, 2) (%s)] length" % ", ".join("%d" % i if i % 2 else "?(1 2 ?eq)" for i in range(n))]
+    compare(ctx, wides, stats, "wide")
+    samples.append(wides[1][:120])
     # the property itself, on the implementation alone (also for words the engine model does not
     # interpret, e.g. ?match): feeding E the stacks a, b, c one after the other yields what E yields
     # for a, for b and for c - as a multiset (a `,` inside E may interleave what it yields for
